@@ -114,7 +114,7 @@ impl Http1Parser {
     pub fn parse_request(&self, data: &[u8]) -> Result<Option<Http1Request>, Http1ParseError> {
         let start_time = Instant::now();
 
-        let data_str = std::str::from_utf8(data).map_err(|_| Http1ParseError::InvalidUtf8)?;
+        let data_str = std::str::from_utf8(head_of(data)).map_err(|_| Http1ParseError::InvalidUtf8)?;
 
         if !data_str.contains("\r\n\r\n") && !data_str.contains("\n\n") {
             return Ok(None);
@@ -206,7 +206,7 @@ impl Http1Parser {
     pub fn parse_response(&self, data: &[u8]) -> Result<Option<Http1Response>, Http1ParseError> {
         let start_time = Instant::now();
 
-        let data_str = std::str::from_utf8(data).map_err(|_| Http1ParseError::InvalidUtf8)?;
+        let data_str = std::str::from_utf8(head_of(data)).map_err(|_| Http1ParseError::InvalidUtf8)?;
 
         if !data_str.contains("\r\n\r\n") && !data_str.contains("\n\n") {
             return Ok(None);
@@ -447,6 +447,18 @@ impl Http1Parser {
                 | "REPORT"
         )
     }
+}
+
+/// The bytes up to and including the blank line that ends the head, or all of `data` if there is none.
+fn head_of(data: &[u8]) -> &[u8] {
+    let crlf = data.windows(4).position(|w| w == b"\r\n\r\n").map(|p| p.saturating_add(4));
+    let lf = data.windows(2).position(|w| w == b"\n\n").map(|p| p.saturating_add(2));
+    let end = match (crlf, lf) {
+        (Some(a), Some(b)) => a.min(b),
+        (Some(a), None) | (None, Some(a)) => a,
+        (None, None) => data.len(),
+    };
+    data.get(..end).unwrap_or(data)
 }
 
 impl Default for Http1Parser {
